@@ -79,9 +79,16 @@ def gen_rare_table(R):
             eid += 1
             for _ in range(rows_per):
                 vals.append(lab); ids1.append(eid); ids2.append(R.randint(1, 3)); nums.append(R.choice([0, 99]))
+    mode = R.choice(["one", "two", "two"])
+    if mode == "two" and R.random() < 0.7:
+        # a string held by many entities of the fine id column (enough to saturate a capped counter) but by fewer than low_threshold of the coarse one
+        ne2 = R.randint(1, max(1, min(lt - 1, 2)))
+        lab = R.choice(["dept-delta", "aaa-skew", "zzz-skew"])
+        for e in range(R.choice([25, 40, 70])):
+            eid += 1
+            vals.append(lab); ids1.append(eid); ids2.append(100 + R.randrange(ne2)); nums.append(R.choice([0, 3]))
     order = list(range(len(vals))); R.shuffle(order)
     df = pd.DataFrame({"s": [vals[i] for i in order], "k": [nums[i] for i in order]})
-    mode = R.choice(["one", "two", "one"])
     pids = pd.DataFrame({"id0": [ids1[i] for i in order]}) if mode == "one" else pd.DataFrame({"id0": [ids1[i] for i in order], "id1": [ids2[i] for i in order]})
     ap = AnonymizationParams(salt=R.getrandbits(64).to_bytes(8, "little"), low_count_params=SuppressionParams(lt, R.choice([0.0, 1.0, 2.0]), R.choice([0.0, 2.0])),
                              layer_noise_sd=R.choice([0.0, 1.0]))
